@@ -49,9 +49,11 @@ pub fn harm_strategy() -> BoxedStrategy<HarmCase> {
         HOp::Fail { kind, on_index, nth, eio, short }
     });
     let op = prop_oneof![24 => op_strategy(&gen).prop_map(HOp::Plain), 2 => crash, 1 => fail];
-    let cfg = (cfg_strategy(&[1, 8, 33], true), any::<bool>(), prop::bool::weighted(0.2)).prop_map(|(mut c, v, ig)| {
+    let cdir = prop_oneof![5 => Just(None), 1 => Just(Some("quarantine".to_string())), 2 => Just(Some("q/sub".to_string()))];
+    let cfg = (cfg_strategy(&[1, 8, 33], true), any::<bool>(), prop::bool::weighted(0.2), cdir).prop_map(|(mut c, v, ig, cdir)| {
         c.validate_data = v;
         c.ignore_corrupted = ig;
+        c.corrupted_dir = cdir;
         c
     });
     (cfg, prop::collection::vec(op, 0..gen.max_ops)).prop_map(|(cfg, ops)| HarmCase { cfg, ops }).boxed()
@@ -69,9 +71,9 @@ fn blob_id(p: &Path) -> Option<usize> {
     }
 }
 
-fn snapshot(dir: &Path) -> Snap {
+fn snapshot(dir: &Path, corrupted: &Path) -> Snap {
     let mut s = Snap::new();
-    for d in [dir.to_path_buf(), dir.join("corrupted")] {
+    for d in [dir.to_path_buf(), corrupted.to_path_buf()] {
         if let Ok(rd) = std::fs::read_dir(&d) {
             for e in rd.flatten() {
                 let p = e.path();
@@ -115,8 +117,8 @@ impl<'a> Harm<'a> {
 
     /// Compares the current bytes of every blob file with the previous snapshot
     fn compare_snapshots(&mut self) -> Result<(), Failure> {
-        let cur = snapshot(&self.dir);
-        let corrupted = self.dir.join("corrupted");
+        let corrupted = self.cfg.corrupted_path(&self.dir);
+        let cur = snapshot(&self.dir, &corrupted);
         for (p, old) in &self.prev {
             let in_corrupted = p.starts_with(&corrupted);
             match cur.get(p) {
@@ -211,7 +213,7 @@ impl<'a> Harm<'a> {
                 vio::Kind::Truncate if is_blob => return self.fail("harm/blob-truncated", format!("{}", e.path.display())),
                 vio::Kind::Remove if is_blob => return self.fail("harm/blob-removed", format!("{}", e.path.display())),
                 vio::Kind::Rename if is_blob => {
-                    let ok = e.to.as_ref().map_or(false, |t| t.starts_with(self.dir.join("corrupted")) && t.file_name() == e.path.file_name());
+                    let ok = e.to.as_ref().map_or(false, |t| t.parent() == Some(self.cfg.corrupted_path(&self.dir).as_path()) && t.file_name() == e.path.file_name());
                     if !ok {
                         return self.fail("harm/blob-renamed", format!("{} -> {:?}", e.path.display(), e.to));
                     }
@@ -343,7 +345,7 @@ impl<'a> Harm<'a> {
         }
         if damaged {
             self.labels.insert("blob_damaged".into());
-            self.prev = snapshot(&self.dir);
+            self.prev = snapshot(&self.dir, &self.cfg.corrupted_path(&self.dir));
             self.ends.clear();
         }
         match sut::open(&self.cfg, &self.dir, lazy).await {
@@ -363,6 +365,10 @@ pub fn run_harm(c: &HarmCase, dir: &Path, findings: &Findings) -> Result<CaseOut
     let rt = c.cfg.runtime();
     let nkeys = 4u8;
     let _ = std::fs::remove_dir_all(dir);
+    // pearl creates the corrupted dir itself, but only its last component
+    if let Some(parent) = c.cfg.corrupted_path(dir).parent() {
+        let _ = std::fs::create_dir_all(parent);
+    }
     let session = vio::start_session(dir);
     let res = rt.block_on(async {
         let mut h = Harm { cfg: c.cfg.clone(), dir: dir.to_path_buf(), sut: None, session: session.clone(), prev: Snap::new(), ids_ever: BTreeSet::new(), ends: BTreeMap::new(), ev_pos: 0, step: 0, cur: "init".into(), labels: BTreeSet::new(), stats: Stats::default(), findings, known: BTreeSet::new() };
@@ -447,7 +453,7 @@ pub fn run(ctx: &RunCtx) -> PropResult {
     PropResult {
         report,
         level: "exploration",
-        rule: "proptest histories over ALL public calls (data ops, try_close/create/restore, force_update, *_in_background, offload, fsync, free, wait-idle), restarts with index damage, one-shot injected I/O failures (n-th create / open / write / short write / sync on blob or index files, ENOSPC or EIO, hitting client calls, background tasks or a later init alike), and crash-restarts in which blob files are damaged so that init quarantines them (cut inside a record header / body / the blob header, zeroed magic, flipped header byte; data validation on/off; quarantine or ignore). After EVERY step the bytes of every *.blob in the work dir and the corrupted dir are compared with the previous snapshot: earlier bytes must be a prefix of the current bytes, or the file sits byte-identical in the corrupted dir (then immutable); new blob files must carry an id never used by any file of either directory. From the I/O tap: every write to a *.blob starts exactly at the end implied by the earlier writes (a failed write keeps its reserved range: nothing is ever written over it), no truncate/remove ever names a *.blob, renames only move a blob into the corrupted dir without overwriting, and at idle points a batch of every query kind is bracketed by zero write/create/truncate/rename/remove events. Non-trivial = a blob was created after a restart or a quarantine, or a failpoint fired. distinct = FNV hash of the serialized case.".into(),
+        rule: "proptest histories over ALL public calls (data ops, try_close/create/restore, force_update, *_in_background, offload, fsync, free, wait-idle), restarts with index damage, one-shot injected I/O failures (n-th create / open / write / short write / sync on blob or index files, ENOSPC or EIO, hitting client calls, background tasks or a later init alike), and crash-restarts in which blob files are damaged so that init quarantines them (cut inside a record header / body / the blob header, zeroed magic, flipped header byte; data validation on/off; quarantine or ignore; the corrupted dir under its default name, another name, or a two-component relative path). After EVERY step the bytes of every *.blob in the work dir and the corrupted dir are compared with the previous snapshot: earlier bytes must be a prefix of the current bytes, or the file sits byte-identical in the corrupted dir (then immutable); new blob files must carry an id never used by any file of either directory. From the I/O tap: every write to a *.blob starts exactly at the end implied by the earlier writes (a failed write keeps its reserved range: nothing is ever written over it), no truncate/remove ever names a *.blob, renames only move a blob into the corrupted dir without overwriting, and at idle points a batch of every query kind is bracketed by zero write/create/truncate/rename/remove events. Non-trivial = a blob was created after a restart or a quarantine, or a failpoint fired. distinct = FNV hash of the serialized case.".into(),
         assumptions: {
             let mut a = common_assumptions();
             a.push("damage applied by the harness itself re-baselines the snapshot (it is the fault, not the system's doing)".into());
